@@ -1,24 +1,47 @@
 #!/usr/bin/env python3
-"""Writes selftest/revert/<defect>.diff = reverse of each `fix:` commit of /repo, with the properties whose checks
-must report the re-introduced defect."""
-import subprocess, json, os
+"""Writes selftest/revert/<defect>.diff = the patch that re-introduces each repaired defect on today's HEAD of /repo
+(git revert --no-commit of its `fix:` commit(s) in a scratch worktree outside /repo and /verif, then git diff), with the
+properties whose checks must report the re-introduced defect."""
+import subprocess, json, os, tempfile, shutil
 commits = subprocess.run(["git","-C","/repo","log","--format=%h %s"],capture_output=True,text=True).stdout.splitlines()
 m = {"merge iterator adapter":("D5",["C11","C08"]), "MergeCompact returns":("D6",["C11","C08"]), "WAL replay treats":("D4-D14",["C02","C07","C10","C13"]),
  "close the merged table":("D8",["C02","C06"]), "SkipNext honours":("D2",["C04"]), "SeekNext advances":("D1",["C04"]), "DiskKeyIndex.IteratorBetween":("D12b",["C03"]),
  "stream writer commits":("D11",["C15"]), "merge iterator no longer":("D7",["C08","C06"]), "PutBytes/DeleteBytes validate":("D10",["C17"]),
  "compaction keeps tombstones":("D9",["C06","C01"]), "Kaitai v4 schema":("D3",["C20"]),
  "removes every WAL file":("D15",["C01","C02","C13","C17"]), "compacting tables without records":("D16",["C01","C06"]),
- "flushed into a temporary directory":("D13",["C02","C10"])}
+ "flushed into a temporary directory":("D13",["C02","C10"]),
+ "over-long varint":("D17",["C12","C04","C09"]),
+ "disk index binary search no longer":("D18",["C03"]), "SeekNext skips a marker":("D19",["C04","C03"])}
+# a later fix: commit that refines an earlier one has to be reverted together with it (newest first)
+also = {"D15": ["WAL sweep after a flush stays inside"]}
 out = os.path.join(os.path.dirname(os.path.abspath(__file__)), "revert")
 os.makedirs(out, exist_ok=True)
+for f in os.listdir(out):
+    if f.endswith(".diff"): os.remove(os.path.join(out, f))
 idx = []
-for c in commits:
-    h, s = c.split(" ", 1)
-    if not s.startswith("fix:"): continue
-    for k, (name, props) in m.items():
-        if k in s:
-            d = subprocess.run(["git","-C","/repo","diff",h,h+"^"],capture_output=True,text=True).stdout
+def find(sub):
+    for c in commits:
+        h, s = c.split(" ", 1)
+        if s.startswith("fix:") and sub in s: return h
+    return None
+for k, (name, props) in m.items():
+    h = find(k)
+    if not h: continue
+    chain = [find(x) for x in also.get(name, [])] + [h]
+    chain = [c for c in chain if c]
+    wt = tempfile.mkdtemp(prefix="revwt.", dir="/tmp"); os.rmdir(wt)
+    subprocess.run(["git","-C","/repo","worktree","add","-q","--detach",wt,"HEAD"],check=True)
+    try:
+        ok = True
+        for c in chain:
+            r = subprocess.run(["git","-C",wt,"revert","--no-commit",c],capture_output=True,text=True)
+            if r.returncode != 0:
+                ok = False; print("cannot revert", name, c, r.stderr[:200]); break
+        if ok:
+            d = subprocess.run(["git","-C",wt,"diff","HEAD"],capture_output=True,text=True).stdout
             open(os.path.join(out, name+".diff"), "w").write(d)
-            idx.append({"name": name, "properties": props, "reverts": h})
+            idx.append({"name": name, "properties": props, "reverts": chain})
+    finally:
+        subprocess.run(["git","-C","/repo","worktree","remove","--force",wt],capture_output=True)
 json.dump({"patches": idx}, open(os.path.join(out, "INDEX.json"), "w"), indent=1)
 print(len(idx), "revert patches")
